@@ -1069,6 +1069,16 @@ def _np_polyval(interp, args, kwargs, node, frame):
     return out
 
 
+@lib("math.ceil", "math.floor", "numpy.ceil", "numpy.floor")
+def _ceil_floor(interp, args, kwargs, node, frame):
+    v = args[0]
+    if is_num(v):
+        f = to_fraction(v)
+        name = "ceil" if "ceil" in ast.unparse(node.func) else "floor"
+        return math.ceil(f) if name == "ceil" else math.floor(f)
+    raise Unsupported("ceil/floor of a symbolic value", node)
+
+
 @lib("numpy.float64", "numpy.float32")
 def _np_float64(interp, args, kwargs, node, frame):
     return _float(interp, args, kwargs, node, frame)
